@@ -17,7 +17,7 @@
 From Coq Require Import List ZArith NArith Bool Lia ZifyNat ZifyBool.
 From Verif Require Import Base.BStr Lru.LruTypes Lru.LruSpec Lru.LruSpec_proofs
   Lru.CapacityLru Lru.CapacityLru_proofs Lru.SimpleLru Lru.SimpleLru_proofs
-  Lru.LruCache Lru.LruCache_proofs Unit.StorageUnit.
+  Lru.LruCache Lru.LruCache_proofs Unit.StorageUnit Unit.CacherPred.
 Import ListNotations.
 Open Scope Z_scope.
 
@@ -345,4 +345,49 @@ Proof.
   cbn [lcache_ops c_put c_get c_has c_remove c_clear]. unfold lc_state, lc_ret. cbn [step].
   destruct (b_AddSized (be s) k v (len_size v)) as [b1 e1]. destruct (b_Get (be s) k) as [b2 r2].
   cbn. repeat split; reflexivity.
+Qed.
+
+(** * The lruCache inside the unit is a cache REACHABLE by a history of lruCache operations (every Put
+    with a non-negative size): every theorem of Props/C15.v applies to it (capacity bound, exact byte
+    accounting, refinement of the reference LRU, ...). *)
+Definition lru_reachable (c0 c : lcache) : Prop :=
+  exists lops : list op, c = run c0 lops /\
+    Forall (fun o => match o with OpPut _ _ sz => 0 <= sz | OpHasOrAdd _ _ _ => False | _ => True end) lops.
+
+Lemma lru_reachable_step c0 c o : lru_reachable c0 c ->
+  match o with OpPut _ _ sz => 0 <= sz | OpHasOrAdd _ _ _ => False | _ => True end ->
+  lru_reachable c0 (lc_state (step c o)).
+Proof.
+  intros (lops & -> & Hf) Ho. exists (lops ++ [o]). split.
+  - unfold run. rewrite fold_left_app. reflexivity.
+  - apply Forall_app. split; [exact Hf|constructor; [exact Ho|constructor]].
+Qed.
+
+Lemma lcache_unit_reachable c0 ops :
+  lru_reachable c0 (u_cache (unit_final (lcache_ops c0) (unit_new (lcache_ops c0)) ops)).
+Proof.
+  apply (unit_final_pred (lcache_ops c0) (lru_reachable c0 : c_st (lcache_ops c0) -> Prop) (fun _ => True)).
+  - intros s k v _ Hr. apply (lru_reachable_step c0 s (OpPut k v (len_size v)) Hr). unfold len_size. lia.
+  - intros s k _ Hr. apply (lru_reachable_step c0 s (OpGet k) Hr). exact I.
+  - intros s k _ Hr. apply (lru_reachable_step c0 s (OpRemove k) Hr). exact I.
+  - intros s Hr. apply (lru_reachable_step c0 s OpClear Hr). exact I.
+  - apply Forall_forall. intros op _. apply Forall_forall. intros k _. exact I.
+  - exists []. split; [reflexivity|constructor].
+Qed.
+
+(** the invariants of C15 for the cache inside the unit *)
+Lemma lcache_unit_invariant sized cap mb c0 ops : init_cache sized cap mb = Some c0 ->
+  let c : lcache := u_cache (unit_final (lcache_ops c0) (unit_new (lcache_ops c0)) ops) in
+  NoDup (cache_keys c) /\ 0 <= b_Len (be c) <= cap /\
+  match be c with
+  | BSimple s => s_size s = cap
+  | BCap cc =>
+      maxSize cc = cap /\ maxBytes cc = mb /\ stuck cc = false /\
+      curBytes cc = sum_sizes (entries cc) /\
+      Forall (fun e => 0 <= e_size e) (entries cc) /\
+      (curBytes cc <= mb \/ Len cc <= 1)
+  end.
+Proof.
+  intros Hnew c. destruct (lcache_unit_reachable c0 ops) as (lops & Heq & _). subst c. rewrite Heq.
+  exact (invariant sized cap mb c0 lops Hnew).
 Qed.
